@@ -30,3 +30,40 @@ package engine
 //@   assigns cursorRewound
 //@   requires [cursor_rewound_before_each_shard] cursorRewound(0)
 //@   ensures !cursorRewound(0)
+
+// ---- C19: evacuation. For every object listed on a source shard the pass goes on to the next
+// object only if some shard outside the evacuated set accepted it (or already had it), or the
+// fault handler took it, or reading it failed and errors are ignored by request; otherwise
+// Evacuate stops with an error. Objects are offered only to shards outside the evacuated set,
+// and nothing is removed from or written to a source shard.
+
+//@ ghost pred objectSafe() bool
+//@ ghost pred readFailed() bool
+//@ callrule c19_target_put_verdict in (*StorageEngine).Evacuate
+//@   property C19
+//@   callee (*engine.StorageEngine).putToShard
+//@   pureeffect
+//@   requires [offered_only_to_shards_outside_the_evacuated_set] !ok
+//@   defines (err == nil || errIs(err, errExists)) ==> objectSafe()
+//@ callrule c19_fault_handler_verdict in (*StorageEngine).Evacuate
+//@   property C19
+//@   callee dynamic:param.faultHandler
+//@   pureeffect
+//@   defines err == nil ==> objectSafe()
+//@ callrule c19_source_read in (*StorageEngine).Evacuate
+//@   property C19
+//@   callee (*shard.Shard).Get
+//@   pureeffect
+//@   defines err != nil ==> readFailed()
+//@ callrule c19_source_shards_are_only_read in (*StorageEngine).Evacuate
+//@   property C19
+//@   optional
+//@   callee (*shard.Shard).Put, (*shard.Shard).Delete, (*shard.Shard).Inhume*, (*shard.Shard).MarkGarbage, (*shard.Shard).DeleteContainer, (*shard.Shard).SetMode
+//@   requires [evacuation_only_reads_the_source_shards] false
+//@ callrule c19_collaborators in (*StorageEngine).Evacuate
+//@   property C19
+//@   callee (*shard.Shard).ListWithCursor, (*shard.Shard).GetMode, (*shard.Shard).ID, (mode.Mode).*, (*common.ID).String, (common.ID).String, hrw.Sort, ec.ObjectWithAttributes, (*object.Object).*, (object.Object).*, (id.Address).*, (oid.Address).*, slices.Collect, maps.Values, errors.Is
+//@   pureeffect
+//@ func (*StorageEngine).Evacuate
+//@   property C19
+//@   loop 7 iteration [next_object_only_when_this_one_is_safe] objectSafe() || (readFailed() && ignoreErrors)
